@@ -870,6 +870,7 @@ fn check_shape(req: &Req, ent: &EntSpec, obs: &ServeObs, m: &Model, shape: &Shap
             let mut props: Vec<&'static str> = if fa == Fate::Clean { vec![owner_bytes] } else { vec![owner_bytes, "C07"] };
             if matches!(shape, Shape::Multi(_)) {
                 props.push("C03");
+                props.push("C02"); // entity bytes other than the ones the part headers name
             }
             out.push(f(&props, "body-bytes", format!("body bytes wrong: {e}")));
         }
